@@ -786,6 +786,128 @@ def mo_explore(ctx, configs, depth):
     return len(hs)
 
 
+# ------------------------------------------------ the surrogate optimizer
+# The bundled SurrogateOptimizer drives set_model / set_raw itself. All
+# members of (objective variant) x (fancy logs) x (log file) x (budget =
+# 0..2 surrogate rounds) are run with random sampling as inner algorithm;
+# afterwards the real-system values, the system object and fresh objectives
+# must be what they were before the run.
+def so_job(a):
+    import os
+    import tempfile
+
+    from moptipy.algorithms.random_sampling import RandomSampling
+    from moptipy.api.execution import Execution
+    from moptipy.operators.vectors.op0_uniform import Op0Uniform
+    from moptipyapps.dynamic_control.objective import (
+        FigureOfMerit,
+        FigureOfMeritLE,
+    )
+    from moptipyapps.dynamic_control.surrogate_optimizer import (
+        SurrogateOptimizer,
+    )
+    from moptipyapps.dynamic_control.system_model import SystemModel
+    name, fancy, with_log, max_fes = a
+    cfg = get_config(name)
+    cfg.limit = 10 ** 9
+    system = cfg.system
+    eq0 = system.equations
+    name0 = system.name
+    inst = SystemModel(system, cfg.ctrl, mo_model(cfg))
+    space = inst.controller.parameter_space()
+    probes = [cfg.xs[0], cfg.xs[1]]
+    what = (f"SurrogateOptimizer on {name[0]} + {name[1]} controller, "
+            f"{cfg.cls.__name__}, fancy_logs={fancy}, "
+            f"{'with' if with_log else 'without'} log file, {max_fes} FEs "
+            "(warm-up 2, random sampling inside)")
+
+    def sampling(sp):
+        return RandomSampling(Op0Uniform(sp))
+    ref = {}
+    for cls in (FigureOfMerit, FigureOfMeritLE):
+        f = cls(inst, False)
+        f.initialize()
+        ref[cls] = [f.evaluate(x.copy()) for x in probes]
+    objective = cfg.cls(inst, True)
+    probs = []
+    from mc.core import CACHE_DIR
+    td = tempfile.mkdtemp(prefix="c11so_", dir=CACHE_DIR)
+    try:
+        ex = Execution().set_max_fes(max_fes).set_objective(objective) \
+            .set_solution_space(space).set_rand_seed(1234) \
+            .set_algorithm(SurrogateOptimizer(
+                inst, space, objective, fes_for_warmup=2,
+                fes_for_training=8, fes_per_model_run=4, fancy_logs=fancy,
+                model_training_algorithm=sampling,
+                controller_training_algorithm=sampling))
+        if with_log:
+            ex.set_log_file(os.path.join(td, "run.txt"))
+        try:
+            import contextlib
+            with open(os.devnull, "w") as dn, \
+                    contextlib.redirect_stdout(dn), ex.execute() as process:
+                process.get_consumed_fes()
+        except Exception as e:  # noqa
+            probs.append(("SurrogateOptimizer|the run ends with an "
+                          f"exception ({type(e).__name__})",
+                          f"{what}: {type(e).__name__}: {str(e)[:300]}"))
+    finally:
+        import shutil
+        shutil.rmtree(td, ignore_errors=True)
+    try:
+        objective.set_raw()
+        after = [objective.evaluate(x.copy()) for x in probes]
+    except Exception as e:  # noqa
+        after = f"{type(e).__name__}: {e}"
+    if after != ref[cfg.cls]:
+        probs.append(("SurrogateOptimizer|real-system values of the used "
+                      "objective changed after the run",
+                      f"{what}: evaluate on {[x.tolist() for x in probes]} "
+                      f"gives {after}, before the run {ref[cfg.cls]}"))
+    for cls in (FigureOfMerit, FigureOfMeritLE):
+        f = cls(inst, False)
+        f.initialize()
+        fresh = [f.evaluate(x.copy()) for x in probes]
+        if fresh != ref[cls]:
+            probs.append(("SurrogateOptimizer|a fresh objective on the same "
+                          "system returns other values after the run",
+                          f"{what}: fresh {cls.__name__} gives {fresh}, "
+                          f"before the run {ref[cls]}"))
+    if system.equations is not eq0 or system.name != name0:
+        probs.append(("SurrogateOptimizer|the system object was changed by "
+                      "the run", f"{what}: system name {system.name!r} "
+                      f"(was {name0!r}), equations replaced: "
+                      f"{system.equations is not eq0}"))
+        system.equations = eq0
+        try:
+            object.__setattr__(system, "name", name0)
+        except Exception:  # noqa
+            pass
+    return a, probs
+
+
+def so_explore(ctx, configs):
+    jobs = [(name, fancy, log, fes) for name in configs
+            for (fancy, log) in ((False, False), (False, True), (True, True))
+            for fes in (3, 5)]
+    outs = pmap(so_job, jobs, ctx.jobs)
+    seen = set()
+    for a, probs in outs:
+        for sig, text in probs:
+            if sig not in seen:
+                seen.add(sig)
+                ctx.violation(sig, text, {
+                    "engine": "surrogate_optimizer", "config": list(a[0]),
+                    "fancy": a[1], "log": a[2], "fes": a[3]})
+    ctx.add("evaluations", len(jobs))
+    ctx.add("traces_validated_against_impl", len(jobs))
+    ctx.part("surrogate_optimizer_runs", runs=len(jobs),
+             configurations=[list(c) for c in configs],
+             alphabet="(fancy_logs, log file) in {(no, no), (no, yes), "
+             "(yes, yes)} x budget in {3, 5} FEs")
+    ctx.log(f"surrogate optimizer: {len(jobs)} runs")
+
+
 def describe(name, h):
     return (f"{name[0]} + {name[1]} controller, "
             f"{'FigureOfMerit' if name[2] == 'mean' else 'FigureOfMeritLE'}"
@@ -928,6 +1050,8 @@ def run(ctx: Ctx) -> None:
     mo_cfgs = [CONFIGS[0], CONFIGS[3], CONFIGS[5], CONFIGS[8]] \
         if ctx.quick else CONFIGS
     mo_explore(ctx, mo_cfgs, 5 if ctx.quick else 6)
+    so_explore(ctx, [CONFIGS[0], CONFIGS[1]] if ctx.quick
+               else [CONFIGS[0], CONFIGS[1], CONFIGS[4], CONFIGS[5]])
     ctx.add("states", states)
     ctx.add("transitions", transitions)
     ctx.cov["distinct_nontrivial"] = len(distinct)
@@ -964,6 +1088,11 @@ def replay(ctx: Ctx, rep: dict) -> bool:
         print(f"  {sig}: {text}")
     h = [tuple(o) for o in rep["history"]]
     print(describe(name, h))
+    if rep.get("engine") == "surrogate_optimizer":
+        _, probs = so_job((name, rep["fancy"], rep["log"], rep["fes"]))
+        for sig, text in probs:
+            print(f"  {sig}: {text}")
+        return not probs
     if rep.get("engine") == "model_objective":
         probs = mo_drive(cfg, h)[0]
         for sig, text in probs:
